@@ -88,6 +88,7 @@ def mutations(rng, b, every_offset):
         out.append(b[:1] + struct.pack(">i", v) + b[5:])
     for t in (b"\0", b"x", b"\0\0\0\0", b"junk\0junk", b"\xff\xff"):                       # extra trailing bytes
         out.append(b + t)
+        out.append(b[:1] + struct.pack(">i", ln + len(t)) + b[5:] + t)                      # ... inside a consistent frame
     zs = [i for i in range(5, len(b)) if b[i] == 0]
     for i in zs[:6]:                                    # a terminator (or zero count byte) replaced
         out.append(b[:i] + b"x" + b[i + 1:])
@@ -202,7 +203,8 @@ class Tie:
             if struct.unpack(">i", b[1:5])[0] == len(b) - 1:          # only frames read_message can deliver
                 key = "parse-nonutf8-rewritten" if any(x >= 128 for x in b[5:]) and bytes(query) + bytes(name) != b"" and \
                     (bytes(name) + b"\0" + bytes(query)) not in b else "parse-noncanonical-rewritten"
-                self.findings.setdefault(key, (b.hex(), o["renamed"]["hex"], ref.hex()))
+                if key not in self.findings or len(self.findings[key][0]) > len(b.hex()):
+                    self.findings[key] = (b.hex(), o["renamed"]["hex"], ref.hex())
         return True
 
     # -- Bind decode/encode
@@ -250,7 +252,8 @@ class Tie:
                 self.bad("counterexample", "Bind::rename changed more than the statement name and the length on ASCII input %s -> %s (expected %s)"
                          % (b.hex(), want[1].hex(), ref.hex()), case)
                 return False
-            self.findings.setdefault("bind-rename-nonutf8", (b.hex(), m.hex(), want[1].hex(), ref.hex()))
+            if "bind-rename-nonutf8" not in self.findings or len(self.findings["bind-rename-nonutf8"][0]) > len(b.hex()):
+                self.findings["bind-rename-nonutf8"] = (b.hex(), m.decode(), want[1].hex(), ref.hex())
             self.count("bind_rename:nonutf8-altered")
         return True
 
